@@ -1455,12 +1455,17 @@ func run(c *core.Ctx) {
 var Engine = &core.Engine{
 	ID:    "C08",
 	Level: "exploration",
-	Rule: "twin tables: random live rows (0..8) each with a soft-deleted twin of identical user columns; chains of 0..3 Where/Not/Or units (C02 generator, id-free, leading Or included, hostile renderings in 2 of 3 cases) x 20 read/write paths (Find, inline, First/Last/Take, Count, Pluck, Scan, Rows, FindInBatches, Count-then-Find / Count-then-Pluck on one query value, Update(s), UpdateColumn, Delete + repeated Delete, Unscoped Find/Count/Update/Delete), " +
-		"plus a battery (Find, Count, Unscoped Find, Update, Delete, repeated Delete, Unscoped Delete under 1..2 condition units) on one of six models that declare the soft-delete field differently (pointer field, anonymous embedded struct / pointer struct, embedded with prefix, renamed column, leading column), plus 20 association paths (Joins with a handle of always-true ON conditions mixing Where/Or/Not forms; Preload plain/cond/nested/all/has-one/many2many/unscoped, Joins/InnerJoins belongs-to, Joins has-one, the same joins under Unscoped, Association Find/Count) over random owner graphs whose children all have soft-deleted twins; distinct = (op:form per unit, path) resp. (path, graph sizes); non-trivial = the chain matches at least one live row (so it also matches a twin)",
+	Rule: "twin tables: random live rows (0..8) each with a soft-deleted twin of identical user columns, in one of two key layouts chosen per case (twins above the live rows, or twins BELOW them so that whatever takes the first record by primary key meets the marked row first); chains of 0..3 Where/Not/Or units (C02 generator, id-free, leading Or included, hostile renderings in 2 of 3 cases) x 29 read/write paths (Find, inline, First/Last/Take, Count, Pluck, Scan, Rows, FindInBatches, Count-then-Find / Count-then-Pluck on one query value, Update(s), UpdateColumn, Delete + repeated Delete, Unscoped Find/Count/Update/Delete/First/Last, statements nested in an Unscoped FindInBatches, " +
+		"FirstOrInit and FirstOrCreate with and without Assign / Attrs (map or struct), scoped and Unscoped (Unscoped first or last in the chain): the record found is the lowest key the handle sees and the update gorm issues for Assign stores the value in exactly that record), " +
+		"plus a battery (Find, Count, Unscoped Find, Update, Delete, repeated Delete, Unscoped Delete, FirstOrCreate+Assign scoped and Unscoped under 1..2 condition units) on one of seven models that declare the soft-delete field differently (pointer field, anonymous embedded struct / pointer struct, embedded with prefix, renamed column, leading column, zeroValue tag), plus 28 association read paths (Joins with a handle of always-true ON conditions mixing Where/Or/Not forms; Preload plain/cond/nested/all/has-one/many2many/unscoped, Joins/InnerJoins belongs-to, Joins has-one, the same joins under Unscoped, Preload below Joins, Association Find/Count scoped and through an Unscoped handle) over random owner graphs whose children all have soft-deleted twins, " +
+		"plus one graph-consuming write per case: Select(relations).Delete(&owner), Delete/Clear of links with a soft-delete join model, a deleting hook under PropagateUnscoped, or (1 in 3) an association-mode write = relation (has-many Items, has-one Pet, belongs-to Boss) x Clear / Delete(named rows: the owner's live or marked ones, or another owner's) / Replace(one live row kept) x handle scoped or db.Unscoped() x association detach mode or Association.Unscoped() mode, compared cell by cell with the rows the handle sees; distinct = (op:form per unit, path) resp. (path, graph sizes) resp. (relation/op/handle/mode, owners); non-trivial = the chain matches at least one live row (so it also matches a twin), resp. the association write had rows to touch",
 	Assumptions: []string{
 		"conditions never mention the primary key, so a twin matches exactly when its live row does",
 		"FindInBatches runs whose cursor does not advance are cut by a logical batch bound and only checked for twin ids (non-termination is C15's subject)",
 		"chains starting with Or are checked for twin-disjointness and untouched twins only (C02 leaves their combination undefined)",
+		"FirstOrCreate when no row matches at all (marked or not): only 'one row is created' is demanded when the call succeeds, the created values and errors of that path are not this property's subject; with an Or in the chain only 'the found record holds the assigned value' is demanded, not that no other row does (how the record's key combines with the OR group is C02's reading)",
+		"db.Unscoped() (the statement's Unscoped) and Association(..).Unscoped() (delete the associated records instead of taking the key away) are independent switches; the record handed to an association Replace is not examined (saving it is C10/C11's subject), belongs-to Replace with a new target is not generated, and for a belongs-to owner row the handle does not see the fate of its old target under Association.Unscoped() is not examined",
+		"the association graph keeps one key layout (twins above the live rows)",
 	},
 	Cases: func(tier string) int {
 		if tier == "thorough" {
